@@ -200,9 +200,13 @@ class StepChecker:
             return
 
         # ---- C05: framing of every attempted socket write -----------------------------
+        l_sent = False
         for ev in wire:
             _, snap, total, outcome, etok, how = ev
             sym = atoms_of(snap, None)
+            l_was_sent = l_sent
+            if pre and sym[:len(pre)] == pre and outcome == 'ok':
+                l_sent = True
             if pre and sym == pre:
                 legal = z3.And(z3.UGT(b, 0), z3.ULE(b, cap))
             elif mlen is not None and sym == pre + (m, e):
@@ -222,7 +226,7 @@ class StepChecker:
             if ex.out.get('faults_used', 0) > 0:
                 # "failures never corrupt the framing of later datagrams"
                 oblige('C07', 'framing-after-failure', legal, 'after a failed socket write: socket write %r via %s' % (sym, how))
-            if mlen is not None and sym == (m,) and pre:
+            if mlen is not None and sym == (m,) and pre and not l_was_sent:
                 # "metrics that fit in the buffer leave in the order in which they were emitted": a metric written on its
                 # own while earlier ones are still buffered must be one that cannot be buffered
                 oblige('C06', 'order', z3.Or(b == 0, z3.UGT(mlen + elen, cap)),
